@@ -453,10 +453,15 @@ func (v *Validator) ValidateParallelismSpec(spec *v1alpha1.ParallelismSpec, fldP
 			allErrs = append(allErrs, field.Forbidden(fldPath, errMessageTooManyParallelismTypes))
 		} else {
 			numSpecified++
+			seen := make(map[string]struct{}, len(spec.WithKeys))
 			for i, key := range spec.WithKeys {
 				if len(key) == 0 {
 					allErrs = append(allErrs, field.Required(fldPath.Index(i), "key cannot be empty"))
 				}
+				if _, ok := seen[key]; ok {
+					allErrs = append(allErrs, field.Duplicate(fldPath.Index(i), key))
+				}
+				seen[key] = struct{}{}
 			}
 		}
 	}
@@ -489,10 +494,15 @@ func (v *Validator) validateParallelismSpecWithMatrix(
 			allErrs = append(allErrs, field.Invalid(fldPath, key, detail))
 			continue
 		}
+		seen := make(map[string]struct{}, len(vals))
 		for _, val := range vals {
 			if len(val) == 0 {
 				allErrs = append(allErrs, field.Required(fldPath.Key(key), "value cannot be empty"))
 			}
+			if _, ok := seen[val]; ok {
+				allErrs = append(allErrs, field.Duplicate(fldPath.Key(key), val))
+			}
+			seen[val] = struct{}{}
 		}
 	}
 	return allErrs
